@@ -68,7 +68,7 @@ theorem setDataRate_post (v : Int) (s : DrvState) (h : Inv s) (hv : v = 1 ∨ v 
   unfold setDataRate
   rcases hv with rfl | rfl | rfl
   · exec_simp [readVal_rfSetup, Int.reduceEq]
-    rw [exec_regWrite_nat _ _ _ (hlt 0 (by simp)) (by decide)]
+    rw [exec_regWrite_nat3 _ _ _ (hlt 0 (by simp)) (by decide)]
     have : setRate s.cfg.rfSetup 1 = s.cfg.rfSetup &&& 0xD7 ||| 0 := by rw [hb.1.1]; simp [setRate]
     rw [this]
     apply rfSetup_write s h
@@ -79,7 +79,7 @@ theorem setDataRate_post (v : Int) (s : DrvState) (h : Inv s) (hv : v = 1 ∨ v 
     · exact hb.1.2
     · rfl
   · exec_simp [readVal_rfSetup, Int.reduceEq]
-    rw [exec_regWrite_nat _ _ _ (hlt 8 (by simp)) (by decide)]
+    rw [exec_regWrite_nat3 _ _ _ (hlt 8 (by simp)) (by decide)]
     have : setRate s.cfg.rfSetup 2 = s.cfg.rfSetup &&& 0xD7 ||| 8 := by rw [hb.2.1.1]; simp [setRate]
     rw [this]
     apply rfSetup_write s h
@@ -90,7 +90,7 @@ theorem setDataRate_post (v : Int) (s : DrvState) (h : Inv s) (hv : v = 1 ∨ v 
     · exact hb.2.1.2
     · rfl
   · exec_simp [readVal_rfSetup, Int.reduceEq]
-    rw [exec_regWrite_nat _ _ _ (hlt 0x20 (by simp)) (by decide)]
+    rw [exec_regWrite_nat3 _ _ _ (hlt 0x20 (by simp)) (by decide)]
     have : setRate s.cfg.rfSetup 250 = s.cfg.rfSetup &&& 0xD7 ||| 0x20 := by rw [hb.2.2.1]; simp [setRate]
     rw [this]
     apply rfSetup_write s h
@@ -153,7 +153,7 @@ theorem paCore_post (v : Int) (l : Bool) (s : DrvState) (h : Inv s) (hv : paLega
   have hb := bits_pa _ h.ok.rfSetup.1 h.ok.rfSetup.2 _ (pa_codes v hv).2 l
   rw [← (pa_codes v hv).1] at hb
   simp only [exec_bind, exec_modD', exec_getD, exec_ite, hc, ↓reduceIte, modShadow_d, RF_PA_RATE]
-  rw [h.cached.rfSetup, exec_regWrite_nat _ _ _ hb.2.2 (by decide)]
+  rw [h.cached.rfSetup, exec_regWrite_nat3 _ _ _ hb.2.2 (by decide)]
   have : setPa s.cfg.rfSetup v l = s.cfg.rfSetup &&& 0xF8 ||| (3 - (v / -6).toNat) * 2 ||| Rf24.b2n l := by
     rw [hb.1]; rfl
   rw [this]
